@@ -3,8 +3,8 @@ import importlib.util, os, random, struct
 from vlib import core, corr
 
 AREA = "C17"
-MODULES = ["TinsModel.Props.C17"]
-AUDIT = "Audit/C17.lean"
+MODULES = ["TinsModel.Props.C17", "TinsModel.Props.Limits.C17"]   # + the constants / limits tied to the source (translator/gen_limits.py)
+AUDIT = ["Audit/C17.lean", "Audit/LimitsC17.lean"]
 LEVEL = "proof"
 MANIFEST = dict(
     text="Lean 4 theorems over a code-shaped executable model of BaseSniffer::next_packet / sniff_loop / SnifferIterator, "
@@ -436,6 +436,8 @@ def sig_of(kind, detail, case):
 def run(chk):
     gen = gen_module()
     gen.main([])                                             # regenerate TinsModel/Gen/Capture.lean (only if changed)
+    from translator import gen_limits
+    gen_limits.main([])          # Gen/Limits.lean: constants and limits read from the current source
     problems = chk.prove(MODULES, AUDIT, want_leanchecker=(chk.tier == "thorough"))
     exe, err = core.build_harness("c17_capture")
     if exe is None:
